@@ -321,7 +321,8 @@ func (l *Lexer) readHTML() string {
 			// escape escaping
 			l.readChar()
 			x := l.input[position : l.position-1]
-			return x
+			// the segment may also contain escaped tags (\<%) before this point
+			return strings.Replace(x, "\\<%", "<%", -1)
 		}
 
 		// allow for expression escaping using \<% foo %>
